@@ -1,8 +1,22 @@
 #!/bin/bash
-# Create scratch worktree /tmp/mw$1 of /repo with a warm test build (deps reused from /repo/target).
+# tools/mk_mw.sh N [copy-from-M]
+# Scratch worktree /tmp/mwN of /repo HEAD with a warm, small (debug=0, non-incremental) test build.
 set -e
 N=$1; D=/tmp/mw$N
-git -C /repo worktree add --detach $D HEAD >/dev/null 2>&1
-cp -a /repo/target $D/target
-cd $D && nice -n 5 cargo test --workspace --no-run --offline > /tmp/mw$N.build.log 2>&1
-echo "mw$N ready: $(tail -1 /tmp/mw$N.build.log)"
+if [ ! -d $D ]; then git -C /repo worktree add --detach $D HEAD >/dev/null 2>&1; fi
+cd $D
+git checkout -q --detach main
+cat >> .cargo/config.toml <<'EOC'
+
+[profile.dev]
+debug = 0
+[profile.test]
+debug = 0
+[build]
+incremental = false
+EOC
+git update-index --assume-unchanged .cargo/config.toml
+rm -rf $D/target
+if [ -n "${2:-}" ] && [ -d /tmp/mw$2/target ]; then cp -a /tmp/mw$2/target $D/target; fi
+nice -n 5 cargo test --workspace --no-run --offline > /tmp/mw$N.build.log 2>&1
+echo "mw$N ready: $(du -sh $D/target | cut -f1)"
